@@ -9,6 +9,11 @@ package playback
 //                                          under recover, allocation measured (MemStats.TotalAlloc delta)
 //   dur <tracks> <filehex>                 real segmentFMP4ReadDurationFromParts with the given tracks
 //   mux <events-oracle> <decl> <filehex>   real segmentFMP4ReadHeader + segmentFMP4MuxParts (null muxer)
+//   parsex / durx / muxx …                 the same three ops executed in a CHILD PROCESS whose address space
+//                                          is capped (RLIMIT_AS = current + 1 GiB): chosen by the generator
+//                                          when a size field of the file is < 8 or >= 128 MiB. A 2..4 GiB make()
+//                                          then kills the child ("crash alloc") instead of costing a million
+//                                          page faults in the harness; it also is what happens on small hosts.
 //   e2e list <k> (<init-oracle> <filehex>)*k     CHILD PROCESS: real playback.Server (httpp server,
 //   e2e get <init-oracle> <events> <filehex>     handlerExitOnPanic, gin) + HTTP request; crash observed
 //
@@ -29,6 +34,7 @@ import (
 	"runtime"
 	"strconv"
 	"strings"
+	"syscall"
 	"testing"
 	"time"
 
@@ -159,6 +165,18 @@ func (m *verifC28NullMuxer) flush() error         { return nil }
 // ---------- Exec ----------
 
 func verifC28Exec(op string) string {
+	if os.Getenv("VERIF_C28_TIMING") != "" {
+		t0 := time.Now()
+		defer func() {
+			if d := time.Since(t0); d > 50*time.Millisecond {
+				fmt.Fprintf(os.Stderr, "slow op %v %.60s\n", d, op)
+			}
+		}()
+	}
+	return verifC28Exec2(op)
+}
+
+func verifC28Exec2(op string) string {
 	f := strings.Fields(op)
 	switch f[0] {
 	case "parse":
@@ -204,10 +222,66 @@ func verifC28Exec(op string) string {
 			return "nopanic"
 		})
 
+	case "parsex", "durx", "muxx":
+		return verifC28Capped(f[0][:len(f[0])-1] + op[len(f[0]):])
+
 	case "e2e":
 		return verifC28E2E(f[1:])
 	}
 	return "bad-op"
+}
+
+// ---------- one op in a child process with capped address space ----------
+
+func verifC28Capped(op string) string {
+	opf := filepath.Join(verifC28TmpDir(), "child.op")
+	if err := os.WriteFile(opf, []byte(op), 0o644); err != nil {
+		panic(err)
+	}
+	cmd := exec.Command(os.Args[0], "-test.run", "^TestVerifC28Child$", "-test.count=1")
+	cmd.Env = append(os.Environ(), "VERIF_C28_OPFILE="+opf, "VERIF_OUT=", "GOTRACEBACK=single", "GOMEMLIMIT=off")
+	var so, se bytes.Buffer
+	cmd.Stdout = &so
+	cmd.Stderr = &se
+	done := make(chan error, 1)
+	if err := cmd.Start(); err != nil {
+		panic(err)
+	}
+	go func() { done <- cmd.Wait() }()
+	var err error
+	select {
+	case err = <-done:
+	case <-time.After(120 * time.Second):
+		cmd.Process.Kill()
+		return "timeout"
+	}
+	all := so.String() + se.String()
+	if i := strings.Index(all, "VERIF-ANSWER "); i >= 0 {
+		a := all[i+len("VERIF-ANSWER "):]
+		if j := strings.IndexByte(a, '\n'); j >= 0 {
+			a = a[:j]
+		}
+		return a
+	}
+	if err != nil {
+		if strings.Contains(all, "out of memory") || strings.Contains(all, "cannot allocate memory") {
+			return "crash alloc"
+		}
+		return "crash " + verifC28PanicClass(all)
+	}
+	return "noanswer"
+}
+
+func verifC28CapAddressSpace() {
+	b, err := os.ReadFile("/proc/self/statm")
+	if err != nil {
+		panic(err)
+	}
+	pages, _ := strconv.ParseUint(strings.Fields(string(b))[0], 10, 64)
+	lim := pages*uint64(os.Getpagesize()) + 1<<30
+	if err := syscall.Setrlimit(syscall.RLIMIT_AS, &syscall.Rlimit{Cur: lim, Max: lim}); err != nil {
+		panic(err)
+	}
 }
 
 // ---------- end-to-end in a child process ----------
@@ -263,6 +337,16 @@ func verifC28E2E(f []string) string {
 }
 
 func TestVerifC28Child(t *testing.T) {
+	if opf := os.Getenv("VERIF_C28_OPFILE"); opf != "" {
+		op, err := os.ReadFile(opf)
+		if err != nil {
+			t.Fatal(err)
+		}
+		verifC28Tmp = filepath.Dir(opf) // shared with (and removed by) the parent
+		verifC28CapAddressSpace()
+		fmt.Println("VERIF-ANSWER", verifC28Exec2(string(op)))
+		return
+	}
 	dir := os.Getenv("VERIF_C28_CHILD")
 	if dir == "" {
 		t.Skip("not a child")
@@ -542,12 +626,12 @@ func verifC28Value(r *verifutil.Rand, orig uint32, n int) uint32 {
 		case 1:
 			return 0xffffffff - uint32(r.Intn(16))
 		case 2:
-			return 0x80000000 + uint32(r.Intn(3)) - 1
+			return 0x80000000 + uint32(r.Intn(3))
 		default:
-			return uint32(r.U64()) | 0x40000000
+			return uint32(r.U64()) | 0x80000000
 		}
-	case k < 56: // medium: beyond the file, above the measurement slack
-		return uint32(9<<20 + r.Intn(7<<20))
+	case k < 26: // medium: beyond the file and just above the measurement slack (page faults are expensive)
+		return uint32(1<<20 + 260*n + r.Intn(64<<10))
 	case k < 76:
 		return uint32(8 + r.Intn(9))
 	case k < 100:
@@ -571,8 +655,8 @@ func verifC28Defuse(b []byte) {
 	for i := 0; i+12 <= len(b); i++ {
 		if string(b[i:i+4]) == "trun" {
 			cnt := verifC28BE32(b, i+8)
-			if b[i+6]&0x0f == 0 && cnt > 2000 {
-				verifC28Put32(b, i+8, cnt%2000)
+			if b[i+6]&0x0f == 0 && cnt > 200 {
+				verifC28Put32(b, i+8, cnt%200)
 			}
 		}
 	}
@@ -653,6 +737,34 @@ func verifC28Mutate(r *verifutil.Rand, src []byte, from int) []byte {
 	return b
 }
 
+// risky: a field that the code under test may pass to make() is < 8 (uint32 underflow of size-8) or >= 128 MiB.
+func verifC28Risky(b []byte) bool {
+	for _, fd := range verifC28Fields(b, 0) {
+		if fd.off < 0 || fd.off+4 > len(b) {
+			continue
+		}
+		v := verifC28BE32(b, fd.off)
+		switch fd.kind {
+		case "size:tfhd", "size:tfdt", "size:trun":
+			if v < 8 || v >= 1<<27 {
+				return true
+			}
+		case "size:ftyp", "size:moov", "trun.e0size", "trun.count", "trun.dataoff":
+			if v >= 1<<27 {
+				return true
+			}
+		}
+	}
+	return false
+}
+
+func verifC28X(b []byte) string {
+	if verifC28Risky(b) {
+		return "x"
+	}
+	return ""
+}
+
 func verifC28HeaderLen(b []byte) int {
 	if len(b) < 8 {
 		return 0
@@ -702,7 +814,7 @@ func verifC28Gen(r *verifutil.Rand, i int, thorough bool) []string {
 	}
 	hl := verifC28HeaderLen(src)
 
-	e2eEvery := 60
+	e2eEvery := 90
 	if thorough {
 		e2eEvery = 150
 	}
@@ -723,7 +835,7 @@ func verifC28Gen(r *verifutil.Rand, i int, thorough bool) []string {
 		default:
 			b = verifC28Mutate(r, src, 0)
 		}
-		return []string{fmt.Sprintf("parse %s %s", verifC28InitOracle(b), verifutil.Hex(b))}
+		return []string{fmt.Sprintf("parse%s %s %s", verifC28X(b), verifC28InitOracle(b), verifutil.Hex(b))}
 
 	case k < 8: // dur: parts region, chosen tracks
 		b := src
@@ -741,7 +853,7 @@ func verifC28Gen(r *verifutil.Rand, i int, thorough bool) []string {
 		case 3:
 			tr = "2:90000,1:1000000000"
 		}
-		return []string{fmt.Sprintf("dur %s %s", tr, verifutil.Hex(b))}
+		return []string{fmt.Sprintf("dur%s %s %s", verifC28X(b), tr, verifutil.Hex(b))}
 
 	default: // mux: header intact, parts mutated
 		b := src
@@ -749,7 +861,11 @@ func verifC28Gen(r *verifutil.Rand, i int, thorough bool) []string {
 			b = verifC28Mutate(r, src, hl)
 		}
 		ev, decl := verifC28Events(b, verifC28ParseTracks(base.tracks))
-		return []string{fmt.Sprintf("mux %s %d %s", ev, decl, verifutil.Hex(b))}
+		x := verifC28X(b)
+		if decl >= 1<<27 {
+			x = "x"
+		}
+		return []string{fmt.Sprintf("mux%s %s %d %s", x, ev, decl, verifutil.Hex(b))}
 	}
 }
 
@@ -766,7 +882,13 @@ func verifC28GenE2E(r *verifutil.Rand, src []byte, base verifC28Base, hl int) st
 			box = append(box, 1, 0, 0, 0, 0, 0, 0, 0, 0, 0, 0, 0)
 			b = append(append(append([]byte(nil), b[:hl]...), box...), b[hl:]...)
 		case 2:
-			b = verifC28Mutate(r, src, 0)
+			// (no multi-GiB allocation in the uncapped server child: those are the parsex/durx/muxx ops)
+			for tries := 0; tries < 8; tries++ {
+				if c := verifC28Mutate(r, src, 0); !verifC28Risky(c) {
+					b = c
+					break
+				}
+			}
 		case 3:
 			b = verifC28Foreign(r)
 		default:
@@ -797,11 +919,14 @@ func TestVerifC28(t *testing.T) {
 		}
 	}()
 	verifutil.Main(t, &verifutil.Harness{
-		ID: "C28", Exec: verifC28Exec, Gen: verifC28Gen, Quick: 2400, Thorough: 30000,
+		ID: "C28", Exec: verifC28Exec, Gen: verifC28Gen, Quick: 1800, Thorough: 24000,
 		Class: func(op, impl string) string {
 			f := strings.Fields(op)
 			a := strings.Fields(impl)
 			k := f[0]
+			if k == "parsex" || k == "durx" || k == "muxx" {
+				k = k[:len(k)-1] + "(capped-child)"
+			}
 			if k == "e2e" {
 				k += "-" + f[1]
 			}
@@ -818,4 +943,79 @@ func TestVerifC28(t *testing.T) {
 			return k + "/" + c + big
 		},
 	})
+}
+
+// TestVerifC28MkCorpus prints the hand-picked regression ops of corpus/C28/witness.ops
+// (run once with VERIF_C28_MKCORPUS=1; the output is committed).
+func TestVerifC28MkCorpus(t *testing.T) {
+	if os.Getenv("VERIF_C28_MKCORPUS") == "" {
+		t.Skip("set VERIF_C28_MKCORPUS=1")
+	}
+	defer os.RemoveAll(verifC28TmpDir())
+	verifC28InitBases()
+	get := func(name string) verifC28Base {
+		for _, b := range verifC28Bases {
+			if b.name == name {
+				return b
+			}
+		}
+		panic(name)
+	}
+	cp := func(b []byte) []byte { return append([]byte(nil), b...) }
+	parse := func(b []byte) string { return fmt.Sprintf("parse%s %s %s", verifC28X(b), verifC28InitOracle(b), verifutil.Hex(b)) }
+	mux := func(b []byte, tr string) string {
+		ev, decl := verifC28Events(b, verifC28ParseTracks(tr))
+		x := verifC28X(b)
+		if decl >= 1<<27 {
+			x = "x"
+		}
+		return fmt.Sprintf("mux%s %s %d %s", x, ev, decl, verifutil.Hex(b))
+	}
+	stray := func(b []byte, tg string) []byte {
+		hl := verifC28HeaderLen(b)
+		box := append([]byte{0, 0, 0, 20}, tg...)
+		box = append(box, 1, 0, 0, 0, 0, 0, 0, 0, 0, 0, 0, 0)
+		return append(append(cp(b[:hl]), box...), b[hl:]...)
+	}
+	a1c, a2u, va3c := get("a1c"), get("a2u"), get("va3c")
+	var out []string
+	out = append(out, "# valid, closed / unclosed", parse(a1c.data), parse(a2u.data), parse(va3c.data))
+	out = append(out, "# F-C28a: mvhd.Timescale = 0")
+	b := cp(a1c.data)
+	verifC28Put32(b, bytes.Index(b, []byte("mvhd"))+16, 0)
+	ts0 := b
+	out = append(out, parse(b))
+	out = append(out, "# F-C28b: tfhd size 4 (uint32 underflow), trun size 7, moov size 0xffffff00, sample size 0xfffffff0")
+	b = cp(a2u.data)
+	verifC28Put32(b, bytes.LastIndex(b, []byte("tfhd"))-4, 4)
+	out = append(out, parse(b))
+	b = cp(a2u.data)
+	verifC28Put32(b, bytes.LastIndex(b, []byte("trun"))-4, 7)
+	out = append(out, fmt.Sprintf("dur%s %s %s", verifC28X(b), a2u.tracks, verifutil.Hex(b)))
+	b = cp(a1c.data)
+	verifC28Put32(b, bytes.Index(b, []byte("moov"))-4, 0xffffff00)
+	out = append(out, parse(b))
+	b = cp(va3c.data)
+	verifC28Put32(b, bytes.Index(b, []byte("trun"))+20, 0xfffffff0)
+	out = append(out, mux(b, va3c.tracks))
+	out = append(out, "# F-C28c: tfdt / trun before any tfhd / tfdt")
+	out = append(out, mux(stray(va3c.data, "tfdt"), va3c.tracks), mux(stray(va3c.data, "trun"), va3c.tracks))
+	out = append(out, "# crash images: empty, header only, zero-filled tail, cut inside the last part")
+	hl := verifC28HeaderLen(a2u.data)
+	out = append(out, parse(nil), parse(a2u.data[:hl]), parse(a2u.data[:len(a2u.data)-5]))
+	b = cp(a2u.data)
+	for i := len(b) - 40; i < len(b); i++ {
+		b[i] = 0
+	}
+	out = append(out, parse(b), mux(b, a2u.tracks))
+	out = append(out, "# the same through the real HTTP server in a child process")
+	out = append(out, fmt.Sprintf("e2e list 2 %s %s %s %s", verifC28InitOracle(a1c.data), verifutil.Hex(a1c.data), verifC28InitOracle(ts0), verifutil.Hex(ts0)))
+	st := stray(va3c.data, "tfdt")
+	ev, _ := verifC28Events(st, verifC28ParseTracks(va3c.tracks))
+	out = append(out, fmt.Sprintf("e2e get %s %s %s", verifC28InitOracle(st), ev, verifutil.Hex(st)))
+	ev, _ = verifC28Events(va3c.data, verifC28ParseTracks(va3c.tracks))
+	out = append(out, fmt.Sprintf("e2e get %s %s %s", verifC28InitOracle(va3c.data), ev, verifutil.Hex(va3c.data)))
+	if err := os.WriteFile(os.Getenv("VERIF_C28_MKCORPUS"), []byte(strings.Join(out, "\n")+"\n"), 0o644); err != nil {
+		t.Fatal(err)
+	}
 }
